@@ -26,6 +26,11 @@ func genCmpCase(rt *rapid.T, prop, op string, d DT, form, via, mode string, same
 	if form == "TT" {
 		b := genOpnd(rt, shape, rapid.SampledFrom(layouts).Draw(rt, "lb"), -2, 3, 12, "b")
 		c.B = &b
+		if rapid.IntRange(0, 9).Draw(rt, "bsame") == 0 {
+			// the same tensor on both sides (x == x is false exactly for NaN)
+			same := c.A
+			c.B, c.BSame = &same, true
+		}
 	} else {
 		c.Scalar = genCodes(rt, 1, -2, 3, 12, "s")[0]
 		c.ScT = via == "pkg" && rapid.IntRange(0, 3).Draw(rt, "sct") == 0
@@ -190,6 +195,10 @@ func TestC07(t *testing.T) {
 					if c.B != nil {
 						b := genOpnd(rt, shape, "contig", lo, hi, 3, "lb")
 						c.B = &b
+						if c.BSame {
+							same := c.A
+							c.B = &same
+						}
 					}
 					avoidF39(c)
 					c = withMode(rt, c, mode, d)
